@@ -5,6 +5,7 @@ import os
 import vlib
 from checks import common, sesscheck
 from gen_prog import make_sessions
+import sessions
 
 PROP = "C01"
 LEVEL = "other"
@@ -53,12 +54,48 @@ def run(tier, seed):
                 stats["reported_faults"] += 1
                 run.violation({"what": "the interpreter %s on a parseable program (statement %d): %s" % (kind, at, text),
                                "session": sess[i]})
+    # programs of the fragment for which compiler correctness is PROVED (StmtTop.v): run on the real code in both
+    # compile modes, compared with Sem and the VM model like all others; and the theorems' premises (wstmt, wfb) are
+    # evaluated in Coq on the trees the Go parser produced
+    import gen_frag
+    fsess = gen_frag.sessions(seed, 120 if tier == "quick" else 3000)
+    frag = {"sessions": len(fsess)}
+    for mode, nostck in (("value_mode", False), ("file_mode", True)):
+        # file mode yields no values: there the runs are compared with the VM model in the same mode only
+        fres, fcodes = sesscheck.evaluate(fsess, nostck=nostck, name="C01f" + mode[:1],
+                                          fn="chk_session_nostck" if nostck else "chk_session_both")
+        fstats = sesscheck.classify(run, PROP, fsess, fres, fcodes)
+        frag[mode] = {k: fstats[k] for k in ("sessions", "statements") if k in fstats}
+        for i, r in enumerate(fres):
+            for kind, at, text in sesscheck.go_problems(r)[:1]:
+                if kind in ("panic", "hang") and stats["reported_faults"] < 3:
+                    stats["reported_faults"] += 1
+                    run.violation({"what": "the interpreter %s on a program of the proven fragment (statement %d): %s"
+                                           % (kind, at, text), "session": fsess[i], "mode": mode})
+        if not nostck:
+            terms = [sessions.session_case_term(r) for r in fres]
+            cov = vlib.coq_eval_codes("C01frag", sesscheck.IMPORTS + ["StmtSem", "CorrFragment"], terms, "chk_fragment", shard=40)
+            inside = sum(c // 100000 for c in cov.values())
+            total = sum(c % 100000 for c in cov.values())
+            frag["trees"] = total
+            frag["trees_inside_proven_fragment"] = inside
+    gterms = [sessions.session_case_term(r) for r in res]
+    gcov = vlib.coq_eval_codes("C01gfrag", sesscheck.IMPORTS + ["StmtSem", "CorrFragment"], gterms, "chk_fragment", shard=40)
+    frag["general_trees"] = sum(c % 100000 for c in gcov.values())
+    frag["general_trees_inside_proven_fragment"] = sum(c // 100000 for c in gcov.values())
+    stats["proven_fragment"] = frag
     run.cov.update({
         "explanation": "The property itself (compiler+VM agree with the language semantics on every program) is NOT proved; "
                        "it is decided by differential testing against two Coq artefacts: coq/Sem.v (definitional semantics, "
                        "whose rules are proved to be the documented ones: %d theorems) and the compiler/VM model. "
-                       "%d sessions (%d statements) were run on the real code and evaluated in Coq on both." %
-                       (len(THEOREMS), stats["sessions"], stats["statements"]),
+                       "%d sessions (%d statements) were run on the real code and evaluated in Coq on both. "
+                       "For the while-language over globals the property IS proved on the models (C01_statement_sessions_partial); "
+                       "%d further sessions of that fragment were run in value mode and file mode, and Coq evaluated the theorems' "
+                       "premises on the parsed trees: %d of %d trees of those sessions and %d of %d trees of the general sessions "
+                       "lie inside the proven fragment." %
+                       (len(THEOREMS), stats["sessions"], stats["statements"], frag["sessions"],
+                        frag.get("trees_inside_proven_fragment", 0), frag.get("trees", 0),
+                        frag["general_trees_inside_proven_fragment"], frag["general_trees"]),
         "evaluations": stats["statements"],
         "distinct_nontrivial": sesscheck.distinct_nontrivial(sess, res),
         "rule": "sessions of 3-10 top-level statements from a grammar-directed, scope-tracking, terminating generator "
